@@ -64,6 +64,7 @@ var serverScenarios = []struct{ name, prop string }{
 	{"placement-members", "C16"},
 	{"membership", "C20"},
 	{"membership-late-leader", "C20"},
+	{"membership-rejoin", "C20"},
 }
 
 func runServers(c *Ctx) {
@@ -98,6 +99,8 @@ func runServers(c *Ctx) {
 				srvMembership(c, rng.Intn(2) == 0)
 			case "membership-late-leader":
 				srvMembershipLateLeader(c)
+			case "membership-rejoin":
+				srvMembershipRejoin(c, rng.Intn(2) == 0)
 			}
 		}
 	}
@@ -1277,4 +1280,103 @@ func srvMembershipLateLeader(cx *Ctx) {
 	if got, ok := listed([]uint64{1, 2, 3, 4}, want(1, 2, 3, 4), 45*time.Second); !ok {
 		out.Violate("C20", "C20/servers/members-differ", fmt.Sprintf("after member 1 came back every member must list %v; after 45 s: %v", want(1, 2, 3, 4), got))
 	}
+}
+
+// ---- C20: a member is removed and later joins again under the same id, while a dataset has replicas
+// everywhere; then another member restarts. What the restarted member lists comes from the zero group's
+// log (and snapshot) alone: the partitions' own raft groups saw the member leave their replica sets, but
+// their logs do not feed the address book.
+func srvMembershipRejoin(cx *Ctx, hard bool) {
+	c := newSrvCluster(cx, "C20")
+	out := c.out
+	out.Begin(fmt.Sprintf("servers membership: removed member joins again, another member restarts (hardStop=%v)", hard))
+	defer out.End()
+	defer c.close()
+	if err := c.boot(3); err != nil {
+		out.Local("set-up failed: %v", err)
+		return
+	}
+	want := func(ids ...uint64) []string {
+		var w []string
+		for _, id := range ids {
+			w = append(w, fmt.Sprintf("%d@%s", id, c.nodes[id].port))
+		}
+		sort.Strings(w)
+		return w
+	}
+	check := func(when string, asked []uint64, w []string) bool {
+		got := map[uint64][]string{}
+		ok := waitForSlow(45*time.Second, func() bool {
+			for _, id := range asked {
+				m, err := c.members(id)
+				if err != nil {
+					got[id] = []string{"error: " + err.Error()}
+					return false
+				}
+				got[id] = m
+				if strings.Join(m, " ") != strings.Join(w, " ") {
+					return false
+				}
+			}
+			return true
+		})
+		if !ok {
+			c.died()
+			out.Violate("C20", "C20/servers/members-differ", fmt.Sprintf("%s: every member must list %v; after 45 s: %v", when, w, got))
+		}
+		return ok
+	}
+	if !check("after two acknowledged joins", []uint64{1, 2, 3}, want(1, 2, 3)) {
+		return
+	}
+	ds, _, err := c.createPatiently(1, 2, 2, 3, 30*time.Second)
+	if err != nil {
+		out.Local("set-up: create failed: %v", err)
+		return
+	}
+	replicas := func(via uint64) string {
+		ctx, cancel := context.WithTimeout(context.Background(), 2*time.Second)
+		defer cancel()
+		d, err := pb.NewDatasetManagerClient(c.nodes[via].conn).Get(ctx, &pb.GetDatasetRequest{DatasetId: ds.GetId()})
+		if err != nil {
+			return "error"
+		}
+		var ss []string
+		for _, p := range d.GetPartitions() {
+			ss = append(ss, fmt.Sprint(len(p.GetNodeIds())))
+		}
+		return strings.Join(ss, ",")
+	}
+	time.Sleep(time.Second) // the partitions' raft groups start and elect
+	if c.ask(1, "leader", 5*time.Second) != "LEADER 1" {
+		out.Local("member 1 is not the zero group's leader: scenario skipped")
+		return
+	}
+	if err := c.removeMember(1, 3); err != nil {
+		out.Local("removal of member 3 failed: %v", err)
+		return
+	}
+	c.stop(3, false)
+	if !check("after member 3's removal was acknowledged", []uint64{1, 2}, want(1, 2)) {
+		return
+	}
+	waitForSlow(20*time.Second, func() bool { return replicas(1) == "2,2" })
+	out.Local("member 3 removed (acknowledged) and shut down; replicas per partition as member 1 lists them: %s", replicas(1))
+	if err := c.start(3); err != nil {
+		out.Violate("C20", "C20/servers/rejoin-fails", fmt.Sprintf("the removed node cannot join again under its id: %v", err))
+		return
+	}
+	if !check("after the removed member joined again (acknowledged)", []uint64{1, 2, 3}, want(1, 2, 3)) {
+		return
+	}
+	waitForSlow(15*time.Second, func() bool { return replicas(1) == "3,3" })
+	out.Local("member 3 joined again; replicas per partition: %s", replicas(1))
+	c.stop(1, hard)
+	if err := c.start(1); err != nil {
+		out.Violate("C20", "C20/servers/restart-fails", fmt.Sprintf("member 1 does not start again: %v", err))
+		return
+	}
+	out.Nontrivial("restart-after-rejoin")
+	time.Sleep(2 * time.Second) // the partitions' groups replay their own logs too
+	check("after member 1 restarted (its partitions' logs still hold member 3's departure from their replica sets)", []uint64{1, 2, 3}, want(1, 2, 3))
 }
